@@ -16,8 +16,51 @@ BUDGET = {'quick': 240, 'thorough': 2400}
 SIGMA21 = ['a', '.', '(', ')', '=', '\n', ' ', 'def ', ':', 'import ', ',', '[', ']', '*', "'",
            'class ', 'lambda ', 'for ', 'in ', '@', '1']
 SIGMA_EXT = ['"', '{', '}', '\\\n', '\t', '#', ':=', 'from ', 'async ', "f'", 'é', '\r\n']
-SIGMA12 = ['a', '.', '(', ')', '=', '\n', 'def ', ':', 'import ', ',', '[', "'"]
+SIGMA12 = ['a', '.', '(', ')', '=', '\n', 'def ', ':', 'import ', ',', '[', "'", ' ']
+# trailing-dot / whitespace / comment structure (found by a seeding sub-agent on the unchanged
+# tree: `foo.  x` with the cursor in the blanks raised AttributeError - needs 4 tokens)
+SIGMA6 = ['a', '.', ' ', '\n', '(', '#']
 INSERT8 = ['(', ')', '.', ',', ':', "'", '\n', 'a']
+
+
+# One small program per statement/expression kind of the grammar (the corpus and the token soups
+# never contain e.g. `global` without a module-level binding, `nonlocal`, `del`, `async with`).
+SNIPPETS = {
+    'global-lazy': 'def init():\n    global cache\n    cache = {}\n    return cache\nc\n',
+    'global-read': 'def peek():\n    global counter\n    return counter\ncou\n',
+    'global-typing': 'def setup():\n    global handle\n    ha',
+    'nonlocal': 'def outer():\n    val = 1\n    def inner():\n        nonlocal val\n        val = 2\n        return va\n    return inner\n',
+    'del': 'items = [1, 2]\ndel items[0]\ndel items\nit\n',
+    'assert-raise': 'def chk(v):\n    assert v, "msg"\n    raise ValueError(v) from None\nchk(\n',
+    'with-multi': 'with open("f") as fh, open("g") as gh:\n    fh.re\n    gh.\n',
+    'async': 'import asyncio\nasync def run(q):\n    async with q as r:\n        async for i in r:\n            await i\n    return [x async for x in r]\nru\n',
+    'try-full': 'try:\n    v = int("1")\nexcept (ValueError, TypeError) as err:\n    err.ar\nelse:\n    v.re\nfinally:\n    pass\n',
+    'while-else': 'n = 3\nwhile n:\n    n -= 1\n    if n == 1:\n        break\n    continue\nelse:\n    n.bit\n',
+    'decorated-class': 'import functools\n@functools.total_ordering\nclass P:\n    @property\n    def v(self):\n        return 1\n    @v.setter\n    def v(self, x):\n        pass\nP().v.\n',
+    'yield': 'def g():\n    got = yield 1\n    yield from g()\n    return got\nfor y in g():\n    y.\n',
+    'star-expr': 'a, *b = 1, 2, 3\nc = [*b, *b]\nd = {**{}, "k": 1}\nprint(*c, **d)\nb.\n',
+    'annotations': 'from typing import List, Optional\nx: List[int] = []\ny: Optional[str]\ndef f(p: "int", *a: str, k: float = 1.0, **kw: bytes) -> None:\n    p.\nf(\n',
+    'walrus': 'if (m := len("ab")) > 1:\n    m.\nprint(n := 3, n.)\n',
+    'fstring': 'name = "w"\ns = f"{name!r:>{10}} {name.up"\nt = f"{name.}"\n',
+    'lambda-default': 'k = 2\nf = lambda a, b=k, *c, d=k, **e: (a, b, c, d, e)\nf(1, \n',
+    'cond-import': 'try:\n    import json as js\nexcept ImportError:\n    js = None\nif js:\n    js.du\nfrom os import (path,\n    sep)\npath.jo\n',
+    'relative-import': 'from . import sibling\nfrom .. import parent\nfrom .pkg.mod import name as alias\nalias.\nsibling.\n',
+    'class-kw': 'class M(type):\n    pass\nclass C(object, metaclass=M, flag=True):\n    __slots__ = ("a",)\n    def __init_subclass__(cls, **kw):\n        super().__init_subclass__(**kw)\nC.\n',
+    'match': 'def h(cmd):\n    match cmd:\n        case [x, y]:\n            return x\n        case {"k": v}:\n            return v\n        case _:\n            return cmd.\n',
+    'type-alias': 'type Pair[T] = tuple[T, T]\ndef first[T](p: Pair[T]) -> T:\n    return p[0]\nfirst(\n',
+    'dict-keys': 'cfg = {"alpha": 1, "beta": {"gamma": 2}}\ncfg["\ncfg["beta"]["\ncfg[\n',
+    'comprehension-nest': 'm = [[i * j for i in range(3) if i] for j in range(2)]\ng = (k for row in m for k in row)\nnext(g).\n',
+    'slices': 'seq = list(range(9))\nseq[1:2], seq[::2], seq[..., 0]\nseq[1:].\n',
+    'backslash': 'total = 1 + \\\n    2 + \\\n    len("a")\ntotal.\n',
+    'semicolons': 'a = 1; b = a; b.\nif a: b = 2; b.\n',
+    'unicode': 'größe = 1\nnaïve = größe\nnaï\ngrö\n',
+    'unterminated': 'def f(:\n    return (1,\nclass\n  x = [\nf(\n',
+}
+# characters that str.splitlines() treats as line boundaries but Python/parso do not (found
+# missing by a seeded change that rewrote the column check with splitlines())
+SEPARATORS = ['\x0b', '\x0c', '\x1c', '\x1d', '\x1e', '\x85', '\u2028', '\u2029']
+SEP_TEMPLATES = ['import os\nx = "a%sb"; os.pa\n', 'v = 1 # c%sc\nv.\n', 'def f(a):\n    return a\n%s\nf(\n',
+                 'w = 1;%sw.re\n']
 
 
 def _soups(alpha, maxlen):
@@ -155,12 +198,14 @@ def _families(tier):
     quick_files = corpus.quick_files()
     if tier == 'quick':
         fams.append(('soups<=2/S21', [dict(id=i, code=c) for i, c in _soups(SIGMA21, 2)]))
+        fams.append(('soups<=4/S6', [dict(id='z' + i, code=c) for i, c in _soups(SIGMA6, 4)
+                                     if not i.startswith(('tok:0', 'tok:1:', 'tok:2:'))]))
         pref = []
         for name, text in quick_files[:6]:
             text = text[:400]
-            for k in range(1, len(text) + 1, 3):
+            for k in range(1, len(text) + 1, 4):
                 pref.append(dict(id='pre:%s:%d' % (name, k), code=text[:k], mode='end'))
-        fams.append(('typing-prefixes(6 files, first 400 chars, step 3)', pref))
+        fams.append(('typing-prefixes(6 files, first 400 chars, step 4)', pref))
         edits = []
         for name, text in quick_files[:4]:
             text = text[:300]
@@ -175,12 +220,19 @@ def _families(tier):
         fams.append(('small-edits(4 files)', edits))
         fams.append(('corpus-small(all positions)', [dict(id='file:' + n, code=t)
                                                      for n, t in quick_files if len(t) < 700]))
+        fams.append(('statement-kind snippets(all positions)',
+                     [dict(id='snip:' + k, code=v) for k, v in sorted(SNIPPETS.items())]))
+        fams.append(('line-separator characters(all positions)',
+                     [dict(id='sep:%d:%d' % (a, b), code=t % sp)
+                      for a, sp in enumerate(SEPARATORS) for b, t in enumerate(SEP_TEMPLATES)]))
     else:
         fams.append(('soups<=3/S21', [dict(id=i, code=c) for i, c in _soups(SIGMA21, 3)]))
         fams.append(('soups<=2/S33', [dict(id='x' + i, code=c)
                                       for i, c in _soups(SIGMA21 + SIGMA_EXT, 2)]))
-        fams.append(('soups<=4/S12', [dict(id='y' + i, code=c) for i, c in _soups(SIGMA12, 4)
+        fams.append(('soups<=4/S13', [dict(id='y' + i, code=c) for i, c in _soups(SIGMA12, 4)
                                       if i.startswith('tok:4')]))
+        fams.append(('soups<=5/S6', [dict(id='z' + i, code=c) for i, c in _soups(SIGMA6, 5)
+                                     if not i.startswith(('tok:0', 'tok:1:', 'tok:2:'))]))
         pref = []
         for name, text in quick_files:
             for k in range(1, len(text) + 1):
@@ -198,6 +250,15 @@ def _families(tier):
         fams.append(('small-edits(quick corpus)', edits))
         fams.append(('corpus(all positions)', [dict(id='file:' + n, code=t)
                                                for n, t in corpus.all_files() if len(t) < 6000]))
+        snip = []
+        for k, v in sorted(SNIPPETS.items()):
+            snip.append(dict(id='snip:' + k, code=v))
+            for j in range(1, len(v)):
+                snip.append(dict(id='snip:%s:pre%d' % (k, j), code=v[:j], mode='end'))
+        fams.append(('statement-kind snippets(all positions + every typing prefix)', snip))
+        fams.append(('line-separator characters(all positions)',
+                     [dict(id='sep:%d:%d' % (a, b), code=t % sp)
+                      for a, sp in enumerate(SEPARATORS) for b, t in enumerate(SEP_TEMPLATES)]))
     return fams
 
 
